@@ -990,3 +990,131 @@ sub { x 1; }
 Proof.
   intro fs. C06n_keep C06n_vm. exact (C06_native_fs_wf fs Hyp).
 Qed.
+
+(* ================================================================================================== *)
+(* non-vacuity examples added after the reviewer's audit (Properties/C06_nv.v, 2026-10-01)         *)
+(* ================================================================================================== *)
+
+(* ==== non-vacuity instances obtained BY APPLYING the theorems above (added after review) ==================
+   The examples C06_.._nonvacuous above establish, by computation, witnesses that satisfy ALL hypotheses of their
+   theorems; here those witnesses are fed to the theorems. *)
+
+(* C06_chain_cut: /sub/b.json reached through c.json: its own include of itself finds it on the chain *)
+Example C06_chain_cut_nonvacuous :
+  let p := C06_s "/sub/b.json" in let chain := [C06_s "/c.json"; C06_s "/d.json"] in
+  in_chain p (chain ++ [p]) = true /\ in_chain p chain = false.
+Proof. intros p chain. split; [exact (C06_chain_cut p chain) | vm_compute; reflexivity]. Qed.
+
+(* C06_norm_idem: a path with .., ., a doubled and a trailing slash *)
+Example C06_norm_idem_nonvacuous :
+  let p := of_string "/r/sub/../a/./x//y/" in
+  norm_path (norm_path p) = norm_path p /\ norm_path p = of_string "/r/a/x/y" /\ norm_path p <> p.
+Proof. intros p. split; [exact (C06_norm_idem p)|]. split; [vm_compute; reflexivity | vm_compute; discriminate]. Qed.
+
+(* C06_fuel_irrelevant on the five-file graph with its two cycles: fuel 1000 gives what fuel 6 gives *)
+Example C06_fuel_irrelevant_applied :
+  exists s c, merge_includes_rec 1000 C06_fs true [] (pr_sd C06_pr0) (pr_count C06_pr0) = Ok (s, c) /\
+              merge_includes_rec (S (length C06_fs)) C06_fs true [] (pr_sd C06_pr0) (pr_count C06_pr0) = Ok (s, c).
+Proof.
+  destruct C06_fuel_irrelevant_nonvacuous as (Hle & s & c & H). exists s, c. split; [|exact H].
+  rewrite (C06_fuel_irrelevant C06_fs true (pr_sd C06_pr0) (pr_count C06_pr0) 1000 Hle). exact H.
+Qed.
+
+(* C06_including_file_wins: k = 1 in the root, 2 / 3 / 4 in b.json / c.json / d.json *)
+Example C06_including_file_wins_applied :
+  exists s c', read_plain C06_fs C06_root true true (-1)%Z = Ok (s, c') /\
+    alookup (KS (C06_s "k")) (sd_data s) = Some (Leaf (SInt 1)).
+Proof.
+  destruct C06_including_file_wins_nonvacuous as (u & pr & s & c' & H1 & H2 & H3 & H4 & H5 & H6 & _).
+  exists s, c'. split; [exact H3|]. exact (C06_including_file_wins _ _ _ _ _ _ _ _ _ _ H1 H2 H3 H4 H5 H6).
+Qed.
+
+(* C06_including_file_wins_rec: the sub-run below b.json (chain [b.json], counter 2): b.json's k = 2 beats d.json's 4 *)
+Example C06_including_file_wins_rec_applied :
+  let parent := pr_sd (C06_parse (C06_s "/b.json") 1%Z) in
+  exists s c', merge_includes_rec 5 C06_fs true [C06_s "/b.json"] parent 2%Z = Ok (s, c') /\
+    alookup (KS (C06_s "k")) (sd_data s) = Some (Leaf (SInt 2)) /\
+    alookup (KS (C06_s "k")) (sd_data (pr_sd (C06_parse (C06_s "/d.json") 2%Z))) = Some (Leaf (SInt 4)).
+Proof.
+  intros parent. destruct C06_including_file_wins_rec_nonvacuous as (s & c' & H1 & H2 & H3 & H4 & H5).
+  exists s, c'. split; [exact H1|]. split; [|vm_compute; reflexivity].
+  exact (C06_including_file_wins_rec _ _ _ _ _ _ _ _ _ _ H1 H2 H3 H4 H5).
+Qed.
+
+(* C06_direct_include_complete for c.json, the second include of the root *)
+Example C06_direct_include_complete_applied :
+  exists s c' u, read_plain C06_fs C06_root true true (-1)%Z = Ok (s, c') /\
+    fs_lookup (norm_path (C06_s "/c.json")) C06_fs = Some u /\
+    exists c1 pr, parse_unit true (C06_s "/c.json") c1 u = Ok pr /\
+      forall k, ordinary_key k = true -> alookup k (sd_data (pr_sd pr)) <> None -> alookup k (sd_data s) <> None.
+Proof.
+  destruct C06_direct_include_complete_nonvacuous as (s & c' & u0 & pr0 & i & d & n & u & H1 & H2 & H3 & H4 & H5).
+  exists s, c', u. split; [exact H1|]. split; [exact H5|].
+  exact (C06_direct_include_complete _ _ _ _ _ _ _ _ _ _ _ _ _ H1 H2 H3 H4 H5).
+Qed.
+
+(* C06_include_complete_rec for b.json, the first include of the root; b.json includes d.json, so the second part (the
+   sub-run below b.json succeeded and all it produced arrives) is not empty either *)
+Example C06_include_complete_rec_applied :
+  exists s c' u, merge_includes_rec (S (length C06_fs)) C06_fs true [] (pr_sd C06_pr0) (pr_count C06_pr0) = Ok (s, c') /\
+    fs_lookup (norm_path (C06_s "/b.json")) C06_fs = Some u /\
+    exists c1 pr, parse_unit true (C06_s "/b.json") c1 u = Ok pr /\
+      (forall k, ordinary_key k = true -> alookup k (sd_data (pr_sd pr)) <> None -> alookup k (sd_data s) <> None) /\
+      (sd_inc (pr_sd pr) <> [] ->
+       exists s1 c2, merge_includes_rec (length C06_fs) C06_fs true ([] ++ [norm_path (C06_s "/b.json")]) (pr_sd pr) (pr_count pr) = Ok (s1, c2) /\
+         forall k, ordinary_key k = true -> alookup k (sd_data s1) <> None -> alookup k (sd_data s) <> None).
+Proof.
+  destruct C06_include_complete_rec_nonvacuous as (s & c' & i & d & n & u & H1 & H2 & H3 & H4 & H5).
+  exists s, c', u. split; [exact H1|]. split; [exact H5|].
+  exact (C06_include_complete_rec _ _ _ _ _ _ _ _ _ _ _ _ _ H1 H2 H3 H4 H5).
+Qed.
+
+(* C06_reachable_file_complete: e is defined only in /sub/b.json, which is reached through c.json (chain [c; sub/b]) *)
+Example C06_reachable_file_complete_applied :
+  exists s c', read_plain C06_fs C06_root true true (-1)%Z = Ok (s, c') /\ alookup (KS (C06_s "e")) (sd_data s) <> None /\
+    C06_value "e" = Some (Leaf (SInt 50)).
+Proof.
+  destruct C06_reachable_file_complete_nonvacuous as (s & c' & u0 & f' & chain' & pr & H1 & H2 & H3 & H4 & _ & H6 & H7 & _).
+  exists s, c'. split; [exact H1|]. split; [|vm_compute; reflexivity].
+  exact (C06_reachable_file_complete _ _ _ _ _ _ _ _ _ _ _ _ _ H1 H2 H3 H4 H6 H7).
+Qed.
+
+(* C06_root_includes_reached for b.json *)
+Example C06_root_includes_reached_applied :
+  exists pr, run_reach C06_fs true (S (length C06_fs)) [] (pr_sd C06_pr0) (pr_count C06_pr0) (length C06_fs)
+                       [norm_path (C06_s "/b.json")] (C06_s "/b.json") pr.
+Proof.
+  destruct C06_root_includes_reached_nonvacuous as (s & c' & u0 & i & d & n & u & H1 & H2 & H3 & H4 & H5).
+  exact (C06_root_includes_reached _ _ _ _ _ _ _ _ _ _ _ _ _ H1 H2 H3 H4 H5).
+Qed.
+
+(* C06_reachable_files_closed: from c.json (reached directly) on to /sub/b.json *)
+Example C06_reachable_files_closed_applied :
+  exists chain' f'' pr',
+    run_reach C06_fs true (S (length C06_fs)) [] (pr_sd C06_pr0) (pr_count C06_pr0) f''
+              (chain' ++ [norm_path (C06_s "/sub/b.json")]) (C06_s "/sub/b.json") pr'.
+Proof.
+  destruct C06_reachable_files_closed_nonvacuous as (s & c' & u0 & f' & chain' & pr & i & d & n & u' & H1 & H2 & H3 & H4 & H5 & H6 & H7).
+  exists chain'. exact (C06_reachable_files_closed _ _ _ _ _ _ _ _ _ _ _ _ _ _ _ _ _ H1 H2 H3 H4 H5 H6 H7).
+Qed.
+
+(* C06_earlier_include_wins: c = 2 in c.json (second include) beats c = 4 in d.json (third include) *)
+Example C06_earlier_include_wins_applied :
+  exists s c', read_plain C06_fs2 C06_root true true (-1)%Z = Ok (s, c') /\
+    alookup (KS (C06_s "c")) (sd_data s) = Some (Leaf (SInt 2)).
+Proof.
+  destruct C06_earlier_include_wins_nonvacuous
+    as (s & c' & u0 & pr0 & pre & i & d & n & suf & temp & c1 & u & pr & H1 & H2 & H3 & _ & H4 & H5 & H6 & H7 & H8 & H9 & H10 & H11 & H12 & _).
+  exists s, c'. split; [exact H1|].
+  exact (C06_earlier_include_wins _ _ _ _ _ _ _ _ _ _ _ _ _ _ _ _ _ _ _ _ H1 H2 H3 H4 H5 H6 H7 H8 H9 H10 H11 H12).
+Qed.
+
+(* C06_first_include_wins: b = 20 in b.json (first include) beats 30 in c.json and 60 in /sub/b.json *)
+Example C06_first_include_wins_applied :
+  exists s c', read_plain C06_fs C06_root true true (-1)%Z = Ok (s, c') /\
+    alookup (KS (C06_s "b")) (sd_data s) = Some (Leaf (SInt 20)).
+Proof.
+  destruct C06_first_include_wins_nonvacuous as (s & c' & u0 & i & d & n & suf & u & pr & H1 & H2 & H3 & H4 & H5 & H6 & H7 & H8 & H9 & H10 & _).
+  exists s, c'. split; [exact H1|].
+  exact (C06_first_include_wins _ _ _ _ _ _ _ _ _ _ _ _ _ _ _ _ _ H1 H2 H3 H4 H5 H6 H7 H8 H9 H10).
+Qed.
